@@ -1,6 +1,29 @@
 (* C01 -- rrule yields exactly the RFC 5545 recurrence set, in order.
    Statements only; proofs are in coq/rr/*Thm.v over the hand model (RRNorm/RRMasks/RRIter), the
-   tables regenerated from /repo (gen/RrTables.v) and the independent specification RRSpec. *)
+   tables regenerated from /repo (gen/RrTables.v) and the independent specification RRSpec.
+
+   WHAT THESE THEOREMS DO AND DO NOT SAY (audit of 2026-10-02, notes/audit/rr.md):
+   * They are about the HAND MODEL `iterate` of rrule.__init__ / _iterinfo / _iter.  The tie model = code is
+     (a) the C01_gen_* theorems at the end of this file: rrule.__init__, __construct_byset, __mod_distance and all of
+     _iterinfo (rebuild, day sets, time sets) are regenerated from the source on every run and proved equal to the
+     model; of `_iter` only the six BY-filter clauses, gate_one, the seven advance branches, one fix-day step and one
+     __mod_distance step are TRANSLATED -- its prologue, day-set fetch, BYSETPOS/poslist section, pass skeleton
+     (filter_loop, gate_list, step, run, init_state) are PINNED AS TEXT against a template (a source edit there fails
+     closed, but their semantics rest on the hand model); and (b) the three-way differential run of check_C01.py.
+   * The headline theorems compare the yielded SEQUENCE (`fst`).  The termination kind (`snd`) appears as: never an
+     exception and one of COUNT / UNTIL / year-9999 / limit / fuel under coarse_guard_all (C01_rrule_term_kinds_partial),
+     a finished run is complete (C01_rrule_complete_headline_partial); for sub-daily FREQ a raise happens only when
+     the specification has nothing more, for ANY exception class (C01_subdaily_raise_is_end_partial) -- "only
+     ValueError" is not a theorem there.  That some fuel ends every run (`snd <> TOutOfFuel`) is not stated.
+   * "Whole-second resolution and the start's tzinfo" hold BY CONSTRUCTION of the model's instant type
+     (ordinal, second of day; tzinfo is opaque) -- they are checked on every yielded value by the harness, not proved.
+     Aware datetimes are modelled on the start's wall clock with a constant offset; a start in a DST zone with a UTC
+     UNTIL is only tested (through the naive twin of the rule), `dtstart=None` (datetime.now()) not at all.
+   * `_partial` hides exactly: BYEASTER outside 1583..4098 and under sub-daily FREQ; BYWEEKNO members beyond +-53;
+     WEEKLY passes that reach the week containing 9999-12-31 and WEEKLY+BYSETPOS with a first week before 0001-01-01
+     (both OPEN findings with `_refuted` theorems below); every rule outside spec_wf (two more OPEN findings inside the
+     extended domain RRSpecX.spec_xwf); the exception class for sub-daily FREQ; no-exception / term kinds under the
+     BYEASTER branch of full_guard. *)
 From Coq Require Import ZArith List Bool.
 From V Require Import base.Cal gen.RrTables rr.RRBase rr.RRNorm rr.RRMasks rr.RRIter rr.RRSpec
   rr.RRTablesThm rr.RRIterThm rr.RRRegress rr.RRWeekDefs rr.RRWeekThm rr.RRWeekFinal rr.RRWeekCal
@@ -12,7 +35,8 @@ From V Require Import base.Cal gen.RrTables rr.RRBase rr.RRNorm rr.RRMasks rr.RR
   rr.RRSubAdvance rr.RRSetposThm rr.RRCoarseRun rr.RRMonthlyFullThm rr.RRMonthlyNthThm rr.RRYearlyFullThm
   rr.RRDailyFullThm rr.RRWeeklySetposThm rr.RRYearlyMonthNthThm rr.RRSortedThm rr.RRCoarseTop rr.RRNoRaise rr.RRStripThm rr.RRStripSubThm rr.RRValidThm rr.RRCompleteThm
   rr.RRSubSpBase rr.RRSubSpPass rr.RRSubSpFam rr.RRSubSpSame rr.RRSubSpAll rr.RRSubSorted rr.RRSubSpOrder rr.RRSubSpTerm
-  rr.RRAllFreqTop rr.RRDailyEasterThm rr.RRWeeklyEasterThm rr.RREasterTop rr.RRWkEasterStrip rr.RRNthEasterThm rr.RRFullTop.
+  rr.RRAllFreqTop rr.RRDailyEasterThm rr.RRWeeklyEasterThm rr.RREasterTop rr.RRWkEasterStrip rr.RRNthEasterThm rr.RRFullTop
+  rr.RRSpecX rr.RRFindings rr.RRFullCorollaries.
 Import ListNotations.
 Open Scope Z_scope.
 
@@ -1084,6 +1108,85 @@ Theorem C01_rrule_iter_correct_full_headline_partial : forall r rl limit n,
   fst (iterate rl limit n) = fst (spec_iter r limit n).
 Proof. exact rrule_iter_correct_coarse_full. Qed.
 Print Assumptions C01_rrule_iter_correct_full_headline_partial.
+
+(* ==== corollaries under the full headline guard (with and without BYEASTER): order, no duplicates, valid instants;
+   the termination kinds under the guard without BYEASTER (audit round) *)
+Theorem C01_rrule_strictly_increasing_full_partial : forall r rl limit n,
+  normalize r = Ok rl -> full_guard r n -> isorted (fst (iterate rl limit n)).
+Proof. exact rrule_strictly_increasing_full. Qed.
+Print Assumptions C01_rrule_strictly_increasing_full_partial.
+
+Theorem C01_rrule_nodup_full_partial : forall r rl limit n,
+  normalize r = Ok rl -> full_guard r n -> NoDup (fst (iterate rl limit n)).
+Proof. exact rrule_nodup_full. Qed.
+Print Assumptions C01_rrule_nodup_full_partial.
+
+Theorem C01_rrule_valid_instants_full_partial : forall r rl limit n,
+  normalize r = Ok rl -> full_guard r n ->
+  forall x, In x (fst (iterate rl limit n)) -> good_instant r x.
+Proof. exact rrule_valid_instants_full. Qed.
+Print Assumptions C01_rrule_valid_instants_full_partial.
+
+Theorem C01_rrule_term_kinds_partial : forall r rl limit n,
+  normalize r = Ok rl -> coarse_guard_all r n ->
+  let t := snd (iterate rl limit n) in
+  t = TCount \/ t = TUntil \/ t = TMaxYear \/ t = TOutOfFuel \/ t = TLimit.
+Proof. exact rrule_term_kinds_coarse_all. Qed.
+Print Assumptions C01_rrule_term_kinds_partial.
+
+(* ==== OPEN FINDINGS (audit round, 2026-10-02): the faithful model violates the property text at these inputs, each
+   reproduced on the real dateutil (known_findings.json, notes/rr.md).  The witnesses lie in the complement of the
+   guards above.  The extended domain spec_xwf admits never-matching time members and BYMONTHDAY 0. *)
+Theorem C01_spec_wf_xwf : forall r, spec_wf r = true -> spec_xwf r = true.
+Proof. exact spec_wf_xwf. Qed.
+Print Assumptions C01_spec_wf_xwf.
+
+(* F-C01-last-week-9999, BYSETPOS variant: rrule(WEEKLY, dtstart=9999-12-20 09:00, byweekday=all seven, bysetpos=-1)
+   yields [9999-12-26] and raises ValueError; the specified sequence is [9999-12-26; 9999-12-31] *)
+Theorem C01_rrule_iter_refuted_last_week_9999 :
+  exists r rl limit n,
+    normalize r = Ok rl /\ spec_wf r = true /\ r_freq r = WEEKLY /\ r_byeaster r = None /\ r_byweekno r = None /\
+    1 <= ws0 r /\ max_ord < wlo r (Z.of_nat n - 1) + 6 /\
+    fst (iterate rl limit n) = [(ord_of_ymd 9999 12 26, 32400)] /\
+    snd (iterate rl limit n) = TRaised EValue /\
+    fst (spec_iter r limit n) = [(ord_of_ymd 9999 12 26, 32400); (ord_of_ymd 9999 12 31, 32400)].
+Proof. exact rrule_iter_refuted_last_week_9999. Qed.
+Print Assumptions C01_rrule_iter_refuted_last_week_9999.
+
+(* ... plain variant: every representable occurrence is yielded, then ValueError instead of stopping *)
+Theorem C01_rrule_raises_refuted_last_week_9999 :
+  exists r rl limit n,
+    normalize r = Ok rl /\ spec_wf r = true /\ max_ord < wlo r (Z.of_nat n - 1) + 6 /\
+    fst (iterate rl limit n) = fst (spec_iter r limit n) /\ length (fst (iterate rl limit n)) = 12%nat /\
+    snd (iterate rl limit n) = TRaised EValue /\ snd (spec_iter r limit n) = SExhausted.
+Proof. exact rrule_raises_refuted_last_week_9999. Qed.
+Print Assumptions C01_rrule_raises_refuted_last_week_9999.
+
+(* F-C01-year1-setpos-week: rrule(WEEKLY, dtstart=0001-01-03 09:00, wkst=SU, byweekday=all seven, bysetpos=1, count=2) *)
+Theorem C01_rrule_iter_refuted_year1_setpos_week :
+  exists r rl limit n,
+    normalize r = Ok rl /\ spec_wf r = true /\ r_freq r = WEEKLY /\ r_bysetpos r <> None /\ ws0 r < 1 /\
+    fst (iterate rl limit n) = [(ord_of_ymd 1 1 3, 32400); (ord_of_ymd 1 1 7, 32400)] /\
+    fst (spec_iter r limit n) = [(ord_of_ymd 1 1 7, 32400); (ord_of_ymd 1 1 14, 32400)].
+Proof. exact rrule_iter_refuted_year1_setpos_week. Qed.
+Print Assumptions C01_rrule_iter_refuted_year1_setpos_week.
+
+(* F-C01-outofrange-typeerror: rrule(HOURLY, dtstart=2020-01-01 09:00, byhour=24) raises TypeError when first iterated *)
+Theorem C01_rrule_raises_refuted_outofrange_typeerror :
+  exists r rl limit n,
+    normalize r = Ok rl /\ spec_xwf r = true /\ spec_wf r = false /\
+    iterate rl limit n = ([], TRaised EType) /\ spec_iter r limit n = ([], SFuel).
+Proof. exact rrule_raises_refuted_outofrange_typeerror. Qed.
+Print Assumptions C01_rrule_raises_refuted_outofrange_typeerror.
+
+(* F-C01-bymonthday-zero: rrule(DAILY, dtstart=2020-01-01 09:00, bymonthday=0) yields every day; the specified set is empty *)
+Theorem C01_rrule_iter_refuted_bymonthday_zero :
+  exists r rl limit n,
+    normalize r = Ok rl /\ spec_xwf r = true /\ spec_wf r = false /\
+    fst (iterate rl limit n) = [(ord_of_ymd 2020 1 1, 32400); (ord_of_ymd 2020 1 2, 32400); (ord_of_ymd 2020 1 3, 32400)] /\
+    fst (spec_iter r limit n) = [].
+Proof. exact rrule_iter_refuted_bymonthday_zero. Qed.
+Print Assumptions C01_rrule_iter_refuted_bymonthday_zero.
 
 (* ==== C01_gen_* blocks (translators: gen_rr_init / gen_rr_masks / gen_rr_iter) go BELOW this line; rr adds nothing after it ==== *)
 
